@@ -18,6 +18,11 @@ func init() { props["C08"] = runC08 }
 
 // segment-wise "p is at or below b" for cleaned paths (independent of strings.HasPrefix on raw text)
 func insideSegs(p, b string) bool {
+	if b == "." || b == "" {
+		// the root is the working directory of the source: inside = a relative name that does not climb
+		cp := cleanGo(p)
+		return !strings.HasPrefix(p, "/") && cp != ".." && !strings.HasPrefix(cp, "../")
+	}
 	ps := strings.Split(strings.Trim(p, "/"), "/")
 	bs := strings.Split(strings.Trim(b, "/"), "/")
 	if strings.Trim(b, "/") == "" {
@@ -141,7 +146,7 @@ func httpdirCase(c *Ctx, id string, root, name []byte) {
 		if r == "" {
 			r = "."
 		}
-		if !insideSegs(cleanGo(names[0]), cleanGo(r)) && cleanGo(r) != "." {
+		if !insideSegs(cleanGo(names[0]), cleanGo(r)) {
 			c.Oracle("FAIL %s httpdir-escape root=%q name=%q -> %q is outside the root", id, root, name, names[0])
 		}
 	}
@@ -316,7 +321,7 @@ func runC08(c *Ctx) {
 	}
 	// (1) RealPath / httpDir: exhaustive over short names
 	names := allStrings([]byte{'a', 'b', '.', '/'}, maxLen)
-	roots := []string{"/", "/a", "/a/", "/ab", "a", "./a", "/a/b", "/a/../b", "//a", "/A", "/b/A"}
+	roots := []string{"/", "/a", "/a/", "/ab", "a", "./a", "/a/b", "/a/../b", "//a", "/A", "/b/A", "", "."}
 	k := 0
 	for _, rt := range roots {
 		for _, nm := range names {
@@ -324,7 +329,7 @@ func runC08(c *Ctx) {
 			k++
 		}
 	}
-	for _, rt := range []string{"/", "/a", "/a/b", "a", ""} {
+	for _, rt := range []string{"/", "/a", "/a/b", "a", "", "."} {
 		for _, nm := range names {
 			httpdirCase(c, fmt.Sprintf("hd%d", k), []byte(rt), nm)
 			k++
@@ -362,7 +367,7 @@ func runC08(c *Ctx) {
 			k++
 		}
 	}
-	c.Extra["exhaustive"] = fmt.Sprintf("every name of length<=%d over {a,b,.,/} x %d roots (RealPath) and x 5 roots (httpDir): %d cases", maxLen, len(roots), k)
+	c.Extra["exhaustive"] = fmt.Sprintf("every name of length<=%d over {a,b,.,/} x %d roots (RealPath) and x 6 roots (httpDir): %d cases", maxLen, len(roots), k)
 	runC08LstatFallback(c)
 	// (2) op sequences
 	for i := 0; i < n; i++ {
